@@ -798,6 +798,7 @@ SPECFUNS["fs_mtime"] = _uf_spec("fs_mtime", ["str"], "int")
 SPECFUNS["normpath"] = _uf_spec("normpath", ["str"], "str")
 SPECFUNS["pjoin"] = _uf_spec("pjoin", ["str", "str"], "str")
 SPECFUNS["pdirname"] = _uf_spec("pdirname", ["str"], "str")
+SPECFUNS["pabspath"] = _uf_spec("pabspath", ["str"], "str")
 SPECFUNS["re_sub"] = _uf_spec("re_sub", ["str", "str", "str"], "str")
 SPECFUNS["str_replace_all"] = _uf_spec("str_replace_all", ["str", "str", "str"], "str")
 SPECFUNS["str_lstrip"] = _uf_spec("str_lstrip", ["str", "str"], "str")
